@@ -325,6 +325,10 @@ func c02Run(in V) V {
 		for _, v := range vals {
 			buf := data[off:len(data):len(data)]
 			n, err := thrift.Binary.Skip(buf, thrift.TType(v.T))
+			if n2, err2, pan, ran := skipOnStack(buf, thrift.TType(v.T)); ran && (pan || n2 != n || c02Err(err2) != c02Err(err)) {
+				o = append(o, Ls(I(-96), I(n2))) // the same bytes on a stack-resident buffer gave another result
+				break
+			}
 			o = append(o, Ls(I(c02Err(err)), I(n)))
 			if err != nil || n < 0 || off+n > len(data) {
 				break
